@@ -29,7 +29,7 @@ def main():
         if os.path.exists(os.path.join(d, "result.json")):
             res = json.load(open(os.path.join(d, "result.json")))
         meta_path = os.path.join(d, "meta.json")
-        if name.startswith(("refactor-", "refactor2-")):
+        if name.startswith("refactor"):
             notes = open(os.path.join(d, "notes.md")).read() if os.path.exists(os.path.join(d, "notes.md")) else ""
             meta = {
                 "id": name, "breaks": "nothing (behaviour-preserving)",
